@@ -18,7 +18,7 @@ RULE = ("one case = one history of initiate / approve-deny / exchange / access /
 ASSUMPTIONS = ["signatures are abstracted in the model to 'which (client secret, token secret) pair the signer used' (C11 owns the signature itself)",
                "reference hooks = flask_oauth1.cache semantics (temporary credential by oauth_token only; nonce key nonce-timestamp-client[-token], set on check)"]
 
-SECRETS = {"ca": "secret-a", "cb": "secret-b"}
+SECRETS = {"ca": "secret-a", "cb": "secret-b", "cw": " secret-w\t"}      # (cw: a stored secret with white space at its edges is a different secret from its stripped form)
 NOW0 = 1_000_000
 
 
@@ -135,6 +135,7 @@ class World1Flask(World1):
         self.store = st = mem1.Store1()
         st.clients["ca"] = mem1.Client1("ca", SECRETS["ca"], "https://a/cb", None)
         st.clients["cb"] = mem1.Client1("cb", SECRETS["cb"], "https://b/cb", None)
+        st.clients["cw"] = mem1.Client1("cw", SECRETS["cw"], "https://w/cb", None)
         self.cfg = {"clients": [{"id": k, "secret": v} for k, v in SECRETS.items()], "methods": list(methods), "now": NOW0}
         self.cache = cache = TTLCache()
         app = Flask("c12-flask-world")
@@ -243,6 +244,7 @@ class World1Django(World1Flask):
         self.store = st = mem1.Store1()
         st.clients["ca"] = mem1.Client1("ca", SECRETS["ca"], "https://a/cb", None)
         st.clients["cb"] = mem1.Client1("cb", SECRETS["cb"], "https://b/cb", None)
+        st.clients["cw"] = mem1.Client1("cw", SECRETS["cw"], "https://w/cb", None)
         self.cfg = {"clients": [{"id": k, "secret": v} for k, v in SECRETS.items()], "methods": list(methods), "now": NOW0}
         das.generate_token = lambda n=36: st.nxt("ver")
         self._phase = ["initiate"]
@@ -456,6 +458,11 @@ def cases(rng, tier):
         acc = dict({"op": "access", "client": "ca", "token": "tok4"}, **S("ca", "sec5", "a1"))
         ops += [acc, dict(acc), dict(acc, nonce="a2", signed_with=[SECRETS["ca"], "wrong"]), dict(acc, nonce="a3", client="cb", signed_with=[SECRETS["cb"], "sec5"])]
         out.append({"cfg": World1(["HMAC-SHA1"]).cfg, "ops": ops})
+    # a request signed with the STRIPPED form of a stored secret that has white space at its edges is signed with another secret
+    for meth in ("HMAC-SHA1", "PLAINTEXT"):
+        for sw in (SECRETS["cw"].strip(), SECRETS["cw"], " " + SECRETS["cw"].strip()):
+            out.append({"cfg": World1(["HMAC-SHA1", "PLAINTEXT"]).cfg, "ops": [
+                dict({"op": "initiate", "client": "cw", "callback": "oob", "callback_valid": False}, **dict(S("cw", "", "w1"), method=meth, signed_with=[sw, ""]))]})
     # PLAINTEXT requests that do carry a timestamp and a nonce (the library's client always sends them): replay and window apply to them too
     for ep in ("access", "exchange", "initiate"):
         for variant in ("replay", "stale", "fresh"):
@@ -734,6 +741,11 @@ def oracle_one(c, out):
         ok = o["status"] == 200
         if k == "initiate" and ok:
             temps[o["token"]] = {"client": op["client"], "secret": o["secret"], "verifier": None}
+            if (op.get("signed_with") or [None])[0] != SECRETS.get(op.get("client")):
+                bad(f"temporary credentials issued to a request signed with the client secret {(op.get('signed_with') or [None])[0]!r}; the client's secret is {SECRETS.get(op.get('client'))!r}",
+                    kind="wrong-secret-accepted", op="initiate")
+        if k == "initiate" and not ok and (op.get("signed_with") or [None])[0] == SECRETS.get(op.get("client")) and op.get("client") == "cw" and o.get("error") == "invalid_signature":
+            bad(f"a request signed with the client's own secret {SECRETS['cw']!r} ({op.get('method')}) was refused with invalid_signature", kind="own-signature-refused", op="initiate")
         if ok:
             # replay defence and method policy hold for every accepted signed request
             if op.get("method") not in methods:
